@@ -511,6 +511,47 @@ impl<'a> PairFn for Conf<'a> {
                 }
             }
         }
+        // the nonce: the value absorbed before the query positions is exactly the nonce carried in the proof -
+        // different nonces over a boundary alphabet (around the field modulus and its multiples, single-bit
+        // changes, the extremes) must be checked against their own value and give pairwise different positions
+        if st.opts.grinding == 0 && (st.opts.queries as u32) * (st.spec.n * st.opts.blowup).ilog2() >= 64 {
+            let n0 = proof.pow_nonce;
+            let m = if B::P < (1u128 << 64) { B::P as u64 } else { 0xffff_ffff_0000_0001 };
+            let mut alphabet: Vec<u64> = vec![0, 1, 2, n0.wrapping_add(1), u64::MAX, u64::MAX - 1, 1 << 32, 1 << 63, m.wrapping_sub(1), m, m.wrapping_add(1)];
+            for k in 1..=4u64 {
+                for r in [0u64, 1, 2, n0] {
+                    alphabet.push(m.wrapping_mul(k).wrapping_add(r));
+                }
+            }
+            for bit in 0..64 {
+                alphabet.push(n0 ^ (1u64 << bit));
+            }
+            alphabet.sort();
+            alphabet.dedup();
+            let mut seen: std::collections::HashMap<Vec<usize>, u64> = std::collections::HashMap::new();
+            for nonce in alphabet {
+                let mut p2 = proof.clone();
+                p2.pow_nonce = nonce;
+                let _ = take_log();
+                let _ = verify_with::<B, H, RecCoin<H>>(p2, &pubs, &lenient());
+                let l2 = take_log();
+                out.evals(1);
+                let ints = l2.iter().find_map(|e| if let Ev::Ints { nonce: used, result: Ok(r), .. } = e { Some((*used, r.clone())) } else { None });
+                let Some((used, positions)) = ints else {
+                    out.violation(format!("{pname}: no query positions are drawn for a proof that differs only in its nonce"), json!({"case": info(), "nonce": nonce}));
+                    break;
+                };
+                if used != nonce {
+                    out.violation(format!("{pname}: the nonce given to the coin is not the one carried in the proof"), json!({"case": info(), "nonce": nonce, "used": used}));
+                    break;
+                }
+                if let Some(other) = seen.insert(positions, nonce) {
+                    out.violation(format!("{pname}: two different nonces lead to the same query positions (the nonce is not absorbed exactly)"), json!({"case": info(), "nonce_1": other, "nonce_2": nonce}));
+                    break;
+                }
+            }
+            out.class("nonce alphabet checked");
+        }
         // the seed: every parameter of the proof context and of the options changes the initial state of the coin
         {
             let base_new = vlog.iter().find_map(|e| if let Ev::New(b) = e { Some(b.clone()) } else { None });
@@ -600,6 +641,17 @@ fn points(thorough: bool) -> Vec<Point> {
             }
         }
     }
+    // many queries over a larger domain and no grinding (the nonce alphabet needs >= 64 bits of positions)
+    for aux in [0usize, 1, 4] {
+        for ext in 0..3 {
+            let mut p = base;
+            p.d[8] = 3;
+            p.d[2] = 3;
+            p.d[6] = aux;
+            p.d[11] = ext;
+            out.push(p);
+        }
+    }
     // other computation shapes
     for rule in 1..family::RULES.len() {
         let mut p = base;
@@ -619,7 +671,7 @@ fn points(thorough: bool) -> Vec<Point> {
 pub fn subs(run: &Arc<Run>) -> Vec<Arc<dyn Sub>> {
     let thorough = run.tier().is_thorough();
     let seed = run.seed();
-    run.rule("configurations: single and multi-segment shapes (6 auxiliary kinds incl. Lagrange/GKR), 3 extensions, grinding {0,1,8}, folding {2,4,8,16}, trace lengths 8..256 x remainder degrees giving 0..7 FRI layers, every rule and assertion set of the family, x (field, hasher) pairs; for each: a stateright model of the transcript for that configuration is explored exhaustively (invariant: challenge classes are drawn only inside their protocol window); the real prover and the real verify() run with a recording coin and both logs must be behaviours of the model, every absorbed value equal to the value carried in the proof (seed = context || public inputs, roots, OOD hashes recomputed from the proof bytes, FRI commitments, nonce), element types as the options name; prover and verifier logs equal on all used challenges; dependency matrix: one bit of each prover message flipped => every later challenge changes and every earlier one stays, different public inputs => every challenge changes; non-trivial = configuration whose two logs were replayed (2 traces validated against the implementation each)");
+    run.rule("configurations: single and multi-segment shapes (6 auxiliary kinds incl. Lagrange/GKR), 3 extensions, grinding {0,1,8}, folding {2,4,8,16}, trace lengths 8..256 x remainder degrees giving 0..7 FRI layers, every rule and assertion set of the family, x (field, hasher) pairs; for each: a stateright model of the transcript for that configuration is explored exhaustively (invariant: challenge classes are drawn only inside their protocol window); the real prover and the real verify() run with a recording coin and both logs must be behaviours of the model, every absorbed value equal to the value carried in the proof (seed = context || public inputs, roots, OOD hashes recomputed from the proof bytes, FRI commitments, nonce), element types as the options name; prover and verifier logs equal on all used challenges; the nonce replaced by each member of a boundary alphabet (multiples of the modulus, single-bit changes, extremes) must reach the coin unchanged and give pairwise different positions; every context/options parameter changes the coin seed; dependency matrix: one bit of each prover message (every OOD value) flipped => every later challenge changes and every earlier one stays, different public inputs => every challenge changes; non-trivial = configuration whose two logs were replayed (2 traces validated against the implementation each)");
     run.assume("order of draws inside one phase is not constrained (the property does not constrain it); the verifier's extra challenge after the remainder commitment is unused and therefore optional in the model; 'value changes' is probabilistic with error 2^-60");
     let pts = Arc::new(points(thorough));
     let np = pts.len() as u64;
